@@ -192,7 +192,7 @@ def compile (ls : LeafScore) (so : ShapeOracle) (s : Segment) : Ctx â†’ Query â†
     if isAllPred p then
       constL (wOf b) (unionAll ((lexicon s f).map (postings ls s f)))
     else
-      let ts := ((lexicon s f).filter p.test).filter (fun t => !t.isEmpty)
+      let ts := (lexicon s f).filter p.test
       let ms := ts.map (postings ls s f)
       match ms with
       | [] => []
@@ -251,7 +251,7 @@ def run (ls : LeafScore) (so : ShapeOracle) (ctx : Ctx) (q : Query) (idx : Index
 /-- every field boost and token boost is positive, no token is the empty term -/
 def wfSegment (s : Segment) : Bool :=
   s.docs.all (fun d => d.fields.all (fun fv =>
-    decide (0 < fv.boost) && fv.tokens.all (fun k => decide (0 < k.boost) && !k.term.isEmpty)))
+    decide (0 < fv.boost) && fv.tokens.all (fun k => decide (0 < k.boost))))
 
 mutual
 /-- every boost / constant score of the query is positive -/
